@@ -103,6 +103,25 @@ def run(tier):
                 evals += len(vds)
                 if not np.allclose(gin_c, cst * gin, rtol=1e-10, atol=1e-300):
                     chk.violation("scaling:%s" % bname, "at fixed roughness the wind input is not proportional to the variance density", dict(ctx, c=cst))
+                # the same (integer-valued) variance densities stored as integers: every term as for the float64 copy, bulk = integral
+                # (ST4 terms only: for ST6 the library itself gives an integer-typed spectrum a dissipation 2e-3 off its float64 copy -
+                # representation, not one of the property's clauses; noted in DESIGN.md 9.6)
+                if ci % 2 == 0 and bname != "st6":
+                    vint = [np.rint(2.0e4 * np.asarray(v)) for v in vds]
+                    zfix = pc.da([2.0e-4] * len(vds))
+                    try:
+                        spf = pc.spectrum(f, dirs, vint, depths)
+                        spi = pc.spectrum(f, dirs, [v.astype("int64") for v in vint], depths)
+                        gf_, gi_ = bal.generation.rate(spf, U, W, roughness_length=zfix).values, bal.generation.rate(spi, U, W, roughness_length=zfix).values
+                        df_, di_ = bal.dissipation.rate(spf).values, bal.dissipation.rate(spi).values
+                        dbi = bal.dissipation.bulk_rate(spi).values
+                    except Exception as e:
+                        chk.violation("raise:integer-spectrum:%s" % type(e).__name__, "source terms raised for an integer-typed spectrum", dict(ctx, error=str(e)[:300]))
+                    else:
+                        evals += 2 * len(vds)
+                        disum = np.sum(np.asarray(di_, dtype="float64") * df[None, :, None] * dd[None, None, :], axis=(1, 2))
+                        if not (np.allclose(gi_, gf_, rtol=1e-12, atol=0, equal_nan=True) and np.allclose(di_, df_, rtol=1e-12, atol=0, equal_nan=True) and np.allclose(dbi, disum, rtol=1e-10, atol=1e-18, equal_nan=True)):
+                            chk.violation("integer-spectrum:%s" % bname, "an integer-typed spectrum gets other source terms than its float64 copy (or bulk is not the integral)", ctx)
                 # imbalance algebra
                 dEdt = pc.spectrum(f, dirs, [0.01 * np.asarray(v) for v in vds], depths)
                 imb = bal.evaluate_imbalance(U, W, spec, dEdt).values
